@@ -195,6 +195,9 @@ typedef struct cult {
     int expect_rank;
     int from;
     char *lo, *hi; /* observed stack bounds */
+    int away;      /* migrated out of the chain pool: not a target for ABT_thread_yield_to */
+    int pool_idx;  /* pool the unit is (about to be) associated with */
+    int from_migrated;
 } cult;
 
 static struct {
@@ -206,6 +209,9 @@ static struct {
     volatile int draining;
     volatile int es_expect[NRANK]; /* per stream: the unit that must get control next, or -1 */
     long switches[P_N];
+    long migrations_at_switch;
+    int home_rank; /* rank of the only stream serving the chain pool (private mode) */
+    volatile int any_away; /* some unit left the chain pool: units now run on several streams */
     ABT_pool P;
 } B;
 
@@ -289,12 +295,12 @@ static void on_control(cult *me)
             if (me->expect_caller_state == (int)ABT_THREAD_STATE_TERMINATED) {
                 /* named and not yet freed: still queryable; in a shared pool another stream may
                  * already have revived it */
-                SIM_CHECK(st == ABT_THREAD_STATE_TERMINATED || (!B.priv && (f->hstate != H_REVIVABLE || f->claimed_by >= 0)), "switch:caller-state",
+                SIM_CHECK(st == ABT_THREAD_STATE_TERMINATED || ((!B.priv || B.any_away) && (f->hstate != H_REVIVABLE || f->claimed_by >= 0)), "switch:caller-state",
                           "caller ULT %d should be TERMINATED after exit_to, state %d", f->id, (int)st);
             } else if (me->expect_caller_state == (int)ABT_THREAD_STATE_BLOCKED) {
                 /* in a shared pool somebody may already have resumed it on another stream */
-                SIM_CHECK(st == ABT_THREAD_STATE_BLOCKED || !B.priv, "switch:caller-state", "caller ULT %d should be BLOCKED after suspend_to, state %d", f->id, (int)st);
-            } else if (B.priv) {
+                SIM_CHECK(st == ABT_THREAD_STATE_BLOCKED || !B.priv || B.any_away, "switch:caller-state", "caller ULT %d should be BLOCKED after suspend_to, state %d", f->id, (int)st);
+            } else if (B.priv && !me->from_migrated && !f->away && rank == B.home_rank) {
                 /* only this stream serves the pool, and it is busy running me */
                 SIM_CHECK(st == ABT_THREAD_STATE_READY, "switch:caller-state", "caller ULT %d should be READY in its pool after yielding to ULT %d, state %d", f->id, me->id,
                           (int)st);
@@ -333,7 +339,7 @@ static int pick_target(int want_state, int me)
 {
     int c[MAXC], n = 0;
     for (int i = 0; i < B.created; i++)
-        if (i != me && B.C[i].hstate == want_state && B.C[i].claimed_by < 0)
+        if (i != me && B.C[i].hstate == want_state && B.C[i].claimed_by < 0 && !(want_state == H_INPOOL && B.C[i].away))
             c[n++] = i;
     if (!n)
         return -1;
@@ -344,6 +350,8 @@ static int pick_target(int want_state, int me)
         ok = really_blocked(&B.C[t]);
     else if (want_state == H_REVIVABLE)
         ok = really_in_state(&B.C[t], ABT_THREAD_STATE_TERMINATED);
+    else if (want_state == H_INPOOL)
+        ok = wb_thread_is_in_pool(B.C[t].th); /* a unit migrating back may not have been pushed yet */
     if (!ok) {
         B.C[t].claimed_by = -1;
         return -1;
@@ -370,9 +378,14 @@ static void chain_body(void *arg)
             case P_EXIT_TO:
                 t = pick_target(H_HELD, me->id);
                 break;
-            case P_THREAD_YIELD_TO:
-                t = B.priv ? pick_target(H_INPOOL, me->id) : -1;
+            case P_THREAD_YIELD_TO: {
+                /* the target must be in a pool nobody else pops from: only when I run on the
+                 * one stream that serves the chain pool */
+                int rk = -1;
+                ABT_OK(ABT_self_get_xstream_rank(&rk));
+                t = (B.priv && rk == B.home_rank) ? pick_target(H_INPOOL, me->id) : -1;
                 break;
+            }
             case P_RESUME_YIELD_TO:
             case P_RESUME_SUSPEND_TO:
             case P_RESUME_EXIT_TO:
@@ -387,6 +400,7 @@ static void chain_body(void *arg)
                     B.C[t].claimed_by = me->id;
                     B.C[t].from = -1;
                     B.C[t].expect_caller_state = -1;
+                    B.C[t].pool_idx = B.pool;
                     B.C[t].hstate = H_RUNNING;
                 }
                 break;
@@ -404,6 +418,22 @@ static void chain_body(void *arg)
             B.C[t].claimed_by = -1;
             continue;
         }
+        /* sometimes the caller has a migration request pending when it switches: the request
+         * is handled inside the switch (yield-type and suspend-type callbacks alike) */
+        int migrating = 0;
+        if (prim != P_EXIT_TO && prim != P_RESUME_EXIT_TO && B.rt.npools > 1 && sim_rand_n(SIM_RS_CHAOS, 4) == 0) {
+            int np = (int)sim_rand_n(SIM_RS_CHAOS, (uint32_t)B.rt.npools);
+            ABT_thread self;
+            ABT_OK(ABT_self_get_thread(&self));
+            if (np != me->pool_idx && ABT_thread_migrate_to_pool(self, B.rt.pools[np]) == ABT_SUCCESS) {
+                migrating = 1;
+                me->pool_idx = np;
+                me->away = np != B.pool;
+                if (me->away)
+                    B.any_away = 1;
+                B.migrations_at_switch++;
+            }
+        }
         sw_arg a = { prim, (t >= 0 && prim != P_CREATE_TO) ? B.C[t].th : ABT_THREAD_NULL, t, ABT_SUCCESS };
         if (prim == P_REVIVE_TO)
             B.C[t].budget = 1 + (int)sim_rand_n(SIM_RS_CHAOS, 3);
@@ -415,6 +445,7 @@ static void chain_body(void *arg)
                                : (prim == P_EXIT_TO || prim == P_RESUME_EXIT_TO)     ? (int)ABT_THREAD_STATE_TERMINATED
                                                                                      : (int)ABT_THREAD_STATE_READY;
             tg->from = me->id;
+            tg->from_migrated = migrating;
             tg->expect_caller_state = caller_after;
             tg->expect_rank = rank;
             tg->hstate = H_RUNNING;
@@ -475,6 +506,7 @@ static void run_chain(int c02)
             cand[nc++] = i;
     B.pool = nc ? cand[plan_n((uint32_t)nc)] : 0;
     B.priv = rt->pool_es[B.pool] >= 0;
+    B.home_rank = rt->pool_es[B.pool]; /* streams were created in sequence: rank == index */
     B.P = rt->pools[B.pool];
     B.n = plan_range(2, sim_limit("units", 6));
     int pre = plan_range(1, B.n); /* created up front; the rest through create_to */
@@ -489,6 +521,7 @@ static void run_chain(int c02)
         c->claimed_by = -1;
         c->from = -1;
         c->expect_caller_state = -1;
+        c->pool_idx = B.pool;
         ABT_thread_attr attr = ABT_THREAD_ATTR_NULL;
         c->stack_kind = c02 ? (int)plan_n(3) : 0;
         if (c->stack_kind == 1) {
@@ -561,6 +594,7 @@ static void run_chain(int c02)
         int nb = wb_pool_num_blocked(rt->pools[i]);
         SIM_CHECK(nb == 0, "pool:num-blocked-unbalanced", "num_blocked of pool %d is %d after all chain units finished", i, nb);
     }
+    sim_count(c02 ? "c02.switch_with_pending_migration" : "c11.switch_with_pending_migration", (uint64_t)B.migrations_at_switch);
     for (int p = 0; p < P_N; p++) {
         char nm[48];
         snprintf(nm, sizeof nm, "%s.%s", c02 ? "c02" : "c11", pn[p]);
